@@ -49,7 +49,7 @@ var budgets = map[string]map[string]budget{
 	"thorough": {
 		"C01": {2500000, 4, 1500}, "C02": {6000000, 4, 1500}, "C03": {900000, 4, 1500}, "C04": {6000000, 4, 1500},
 		"C05": {3000000, 4, 1500}, "C06": {2000000, 4, 1500}, "C10": {6000000, 4, 1500}, "C11": {4000000, 4, 1500},
-		"C12": {2500000, 4, 1500}, "C13": {5000000, 4, 1500}, "C19": {1500000, 4, 1500},
+		"C12": {1500000, 4, 1500}, "C13": {5000000, 4, 1500}, "C19": {1500000, 4, 1500},
 	},
 }
 
@@ -236,9 +236,41 @@ func main() {
 		out, _ := cmd.CombinedOutput()
 		want := fmt.Sprintf("REPRODUCED key=%s", mv.Key())
 		if !strings.Contains(string(out), want) {
-			fmt.Printf("INFRASTRUCTURE: replay file %s did not reproduce %q in a fresh process:\n%s\n", replayPath, want, out)
-			writeEvidence(*prop, *tier, seed, seeds, res, *evPath, *noEvidence, *mode, violations, mv.Prop)
-			os.Exit(2)
+			// Not reproducible from the scenario alone. Worlds are independent by construction, so
+			// the only way the worlds executed before it in the same process can matter is state
+			// the library keeps at package level: try the world together with its predecessors.
+			ok := false
+			for k := 1; k <= 512 && !ok; k *= 2 {
+				var pre []*sim.Scenario
+				for j := k; j >= 1; j-- {
+					m := int64(f.N) - int64(j)*int64(f.Stride)
+					if m < 0 {
+						continue
+					}
+					pre = append(pre, sim.Build(*prop, seeds[uint64(m)/uint64(b.runs)], uint64(m)%uint64(b.runs), *tier))
+				}
+				if len(pre) == 0 {
+					break
+				}
+				rp2 := &sim.Replay{Property: "C04", Monitor: "cross-world-influence", Key: "C04/cross-world-influence", Seed: f.Seed, Index: f.Index, Scenario: f.Sc, Prelude: pre,
+					Detail: fmt.Sprintf("world fails only after the %d worlds the same process ran before it (alone it passes): independent parses influence one another through package-level state. Failure: %s", len(pre), f.V)}
+				if err := sim.WriteReplay(replayPath, rp2); err != nil {
+					fatal("write replay: %v", err)
+				}
+				out2, _ := exec.Command(self, "-replay", replayPath, "-mode", *mode).CombinedOutput()
+				if strings.Contains(string(out2), "REPRODUCED key=C04/cross-world-influence") {
+					ok = true
+					fmt.Printf("not reproducible alone; reproducible after its %d predecessor worlds: %s\n", len(pre), rp2.Detail)
+				}
+			}
+			if !ok {
+				fmt.Printf("INFRASTRUCTURE: replay file %s did not reproduce %q in a fresh process (nor with up to 512 predecessor worlds):\n%s\n", replayPath, want, out)
+				writeEvidence(*prop, *tier, seed, seeds, res, *evPath, *noEvidence, *mode, violations, mv.Prop)
+				os.Exit(2)
+			}
+			fmt.Printf("VIOLATION property=C04 replay=%s\n", replayPath)
+			writeEvidence(*prop, *tier, seed, seeds, res, *evPath, *noEvidence, *mode, violations, "C04")
+			os.Exit(1)
 		}
 		fmt.Printf("VIOLATION property=%s replay=%s\n", mv.Prop, replayPath)
 	}
@@ -410,6 +442,29 @@ func doReplay(path string) int {
 		fatal("read replay: %v", err)
 	}
 	mon := sim.MonitorsFor(rp.Scenario.Prop)
+	if len(rp.Prelude) > 0 {
+		// first alone (must pass), then after the predecessor worlds (must fail)
+		if v := sim.Exec(rp.Scenario.Clone(), mon, nil); v != nil {
+			fmt.Printf("replay %s: fails alone already: %s\n", path, v)
+			fmt.Printf("VIOLATION property=%s replay=%s\n", v.Prop, path)
+			return 1
+		}
+		for _, p := range rp.Prelude {
+			func() {
+				defer func() { recover() }()
+				sim.Exec(p, sim.MonitorsFor(p.Prop), nil)
+			}()
+		}
+		v := sim.Exec(rp.Scenario, mon, nil)
+		if v == nil {
+			fmt.Printf("replay %s: no violation after %d predecessor worlds\n", path, len(rp.Prelude))
+			return 0
+		}
+		fmt.Printf("replay %s: passes alone, fails after %d predecessor worlds: %s\n", path, len(rp.Prelude), v)
+		fmt.Printf("REPRODUCED key=C04/cross-world-influence\n")
+		fmt.Printf("VIOLATION property=C04 replay=%s\n", path)
+		return 1
+	}
 	var v *sim.Violation
 	fin := make(chan struct{})
 	go func() { v = sim.Exec(rp.Scenario, mon, nil); close(fin) }()
